@@ -22,7 +22,7 @@ type Layout struct {
 	GtEscape     int    `json:"gtEscape"`    // percent of '>' written as &gt;
 	CDATA        int    `json:"cdata"`       // percent of text nodes (partly) wrapped in CDATA
 	Comments     int    `json:"comments"`    // percent of text nodes / element gaps that get a comment (only if AllowComments)
-	Decl         int    `json:"decl"`        // 0 none; 1..4 XML declaration variants
+	Decl         int    `json:"decl"`        // 0 none; 1..4 XML declaration variants; 5, 6 declare ISO-8859-1 / US-ASCII over a pure-ASCII serialisation
 	BOM          bool   `json:"bom"`
 	OuterWS      bool   `json:"outerWS"`
 	OuterComment bool   `json:"outerComment"`
@@ -50,7 +50,7 @@ func (r *lrng) n(n int) int    { return int(r.next() % uint64(n)) }
 
 // LayoutStats counts which features a serialisation actually used.
 type LayoutStats struct {
-	Shuffled, SingleQuoted, TagSpaces, CharRefs, CDATAs, Comments, SelfClosed int
+	Shuffled, SingleQuoted, TagSpaces, CharRefs, CDATAs, Comments, SelfClosed, ForeignDecl int
 }
 
 type lwriter struct {
@@ -58,6 +58,8 @@ type lwriter struct {
 	r  *lrng
 	b  bytes.Buffer
 	st LayoutStats
+
+	ascii bool // write every non-ASCII character as a reference
 }
 
 // Serialize writes root as a complete document under the layout.
@@ -68,19 +70,10 @@ func Serialize(root *etree.Element, l Layout) []byte {
 
 func SerializeStats(root *etree.Element, l Layout) ([]byte, LayoutStats) {
 	w := &lwriter{l: l, r: &lrng{s: l.Seed}}
-	if l.BOM {
-		w.b.WriteString("\xEF\xBB\xBF")
-	}
-	switch l.Decl {
-	case 1:
-		w.b.WriteString(`<?xml version="1.0" encoding="UTF-8"?>`)
-	case 2:
-		w.b.WriteString(`<?xml version='1.0' encoding='utf-8'?>`)
-	case 3:
-		w.b.WriteString(`<?xml version="1.0" encoding="UTF-8" standalone="yes"?>`)
-	case 4:
-		w.b.WriteString(`<?xml version="1.0"?>`)
-	}
+	// Decl 5, 6: the declaration names a single-byte encoding of which the document only uses the ASCII
+	// range (every other character goes out as a character reference) — the same bytes are a correct
+	// serialisation under the declared encoding and under UTF-8
+	w.ascii = l.Decl == 5 || l.Decl == 6
 	if l.OuterWS {
 		w.b.WriteString("\n")
 	}
@@ -97,7 +90,46 @@ func SerializeStats(root *etree.Element, l Layout) ([]byte, LayoutStats) {
 	if l.OuterComment {
 		w.b.WriteString("<!--end-->")
 	}
-	return w.b.Bytes(), w.st
+	body := w.b.Bytes()
+	decl := l.Decl
+	if w.ascii {
+		for _, c := range body {
+			if c >= 0x80 { // e.g. inside a comment of the tree: fall back to a UTF-8 declaration
+				decl = 1
+				break
+			}
+		}
+	}
+	var head bytes.Buffer
+	if l.BOM && decl < 5 {
+		head.WriteString("\xEF\xBB\xBF")
+	}
+	switch decl {
+	case 1:
+		head.WriteString(`<?xml version="1.0" encoding="UTF-8"?>`)
+	case 2:
+		head.WriteString(`<?xml version='1.0' encoding='utf-8'?>`)
+	case 3:
+		head.WriteString(`<?xml version="1.0" encoding="UTF-8" standalone="yes"?>`)
+	case 4:
+		head.WriteString(`<?xml version="1.0"?>`)
+	case 5:
+		head.WriteString(`<?xml version="1.0" encoding="ISO-8859-1"?>`)
+		w.st.ForeignDecl++
+	case 6:
+		head.WriteString(`<?xml version="1.0" encoding="US-ASCII"?>`)
+		w.st.ForeignDecl++
+	}
+	return append(head.Bytes(), body...), w.st
+}
+
+func isASCII(s string) bool {
+	for i := 0; i < len(s); i++ {
+		if s[i] >= 0x80 {
+			return false
+		}
+	}
+	return true
 }
 
 func qname(space, tag string) string {
@@ -230,7 +262,7 @@ func (w *lwriter) attrValue(v string, q byte) {
 		case r == ']' && !w.r.pct(w.l.CharRef):
 			w.b.WriteByte(']')
 			nb = brackets + 1
-		case w.r.pct(w.l.CharRef):
+		case w.r.pct(w.l.CharRef) || (w.ascii && r >= 0x80):
 			w.ref(r)
 		default:
 			w.b.WriteRune(r)
@@ -253,7 +285,7 @@ func (w *lwriter) text(s string) {
 		}
 		mid := string(rs[cut1:cut2])
 		// "]]>" must not appear inside the section, and the text before must not end in "]]" followed by our ">"... (handled by escaping)
-		if mid != "" && !strings.Contains(mid, "]]>") {
+		if mid != "" && !strings.Contains(mid, "]]>") && !(w.ascii && !isASCII(mid)) {
 			w.escText(string(rs[:cut1]))
 			w.st.CDATAs++
 			w.b.WriteString("<![CDATA[" + mid + "]]>")
@@ -307,7 +339,7 @@ func (w *lwriter) escText(s string) {
 				w.b.WriteByte(']')
 				brackets++
 			}
-		case w.r.pct(w.l.CharRef):
+		case w.r.pct(w.l.CharRef) || (w.ascii && r >= 0x80):
 			w.ref(r)
 			brackets = 0
 		default:
